@@ -141,16 +141,27 @@ def build_wildconf():
     if "wildconf" in _built:
         return _built["wildconf"]
     crate = VERIF / "harness" / "wildconf"
+    tdir = CACHE / "target-conf"
+    if str(REPO) != "/repo":
+        # a seeded change is being tried in a scratch worktree: the harness must link against THAT tree
+        # (the crate's path dependencies name /repo), and must not share build output with the real one
+        src = crate
+        crate = TARGET.parent / "wildconf-src"
+        shutil.rmtree(crate, ignore_errors=True)
+        shutil.copytree(src, crate)
+        toml = (crate / "Cargo.toml").read_text().replace('path = "/repo/', f'path = "{REPO}/')
+        (crate / "Cargo.toml").write_text(toml)
+        tdir = TARGET.parent / "target-conf"
     lock_src = REPO / "Cargo.lock"
     if lock_src.exists() and not (crate / "Cargo.lock").exists():
         shutil.copy(lock_src, crate / "Cargo.lock")
     env = cargo_env()
-    env["CARGO_TARGET_DIR"] = str(CACHE / "target-conf")
+    env["CARGO_TARGET_DIR"] = str(tdir)
     with locked("cargo-conf"):
         r = sh(["cargo", "build", "--offline", "-q", "--release"], timeout=2400, env=env, cwd=crate)
     if r.rc != 0 or r.timed_out:
         raise ToolError("build of harness/wildconf failed:\n" + r.err[-6000:])
-    _built["wildconf"] = CACHE / "target-conf" / "release" / "wildconf"
+    _built["wildconf"] = tdir / "release" / "wildconf"
     return _built["wildconf"]
 
 
